@@ -271,15 +271,26 @@ func ruleLock2(c *Ctx, r *Reporter) {
 			continue
 		}
 		sel := 0
+		// the function itself and the helpers of package lungo it calls directly (a broadcast extracted into a method)
+		fns := []*ssa.Function{fn}
 		allInstrs(fn, func(in ssa.Instruction) {
-			if s, ok := in.(*ssa.Select); ok {
-				sel++
-				r.check(!s.Blocking, funcName(fn)+":signal select", c.pos(in.Pos()), "select has a default case", "select on the signal channel can block under a lock")
-			}
-			if _, ok := in.(*ssa.Send); ok {
-				r.bad(funcName(fn)+":bare send", c.pos(in.Pos()), "bare channel send under a lock")
+			if ci, ok := in.(ssa.CallInstruction); ok {
+				if sf := ci.Common().StaticCallee(); sf != nil && fnPkgPath(sf) == pkgLungo && sf.Blocks != nil && sf != fn && sf.Object() != nil && !sf.Object().Exported() {
+					fns = append(fns, sf)
+				}
 			}
 		})
+		for _, g := range fns {
+			allInstrs(g, func(in ssa.Instruction) {
+				if s, ok := in.(*ssa.Select); ok {
+					sel++
+					r.check(!s.Blocking, funcName(fn)+":signal select", c.pos(in.Pos()), "select has a default case", "select on the signal channel can block under a lock")
+				}
+				if _, ok := in.(*ssa.Send); ok {
+					r.bad(funcName(fn)+":bare send", c.pos(in.Pos()), "bare channel send under a lock")
+				}
+			})
+		}
 		r.guard(sel, 1, "signal select in "+name)
 	}
 }
